@@ -26,6 +26,21 @@ def gen_docs(ck):
             md['creation date'] = datetime.datetime.fromtimestamp(0, datetime.timezone.utc).replace(tzinfo=None)
         if rng.random() < 0.3:
             md['z-nested'] = {'a': [1, [2, [b'\xff', {'k': 10 ** 60, 'é': 'ü'}]], {}], 'b': '', 'c': [], '￿': 1, '\U0001F600': 2, 'Z': -5}
+        if rng.random() < 0.25:
+            # the names of the two converted fields used elsewhere: only metainfo['creation date'] and info['private'] are special
+            key = rng.choice(['private', 'creation date'])
+            val = rng.choice([2, 3, 0, 1, -1, 1600000000, 10 ** 17, b'x', [1]])
+            where = rng.choice(['top', 'top-dict', 'info', 'file', 'list'])
+            if where == 'top':
+                md['private'] = val
+            elif where == 'top-dict':
+                md['x-uploader'] = {'id': 4711, key: val}
+            elif where == 'info':
+                md['info']['creation date'] = val
+            elif where == 'file' and 'files' in md['info']:
+                md['info']['files'][0]['x-attr'] = {key: val}
+            else:
+                md['z-list'] = [{key: val}, [{key: val}]]
         out.append(md)
     return out
 
@@ -39,7 +54,7 @@ def info_span(x):
 def run(ck, model_ok):
     ck.rule = ('canonical bencoded valid torrents (single/multi-file; extra keys at top level, in info and in file entries; nested lists/dicts up to depth 5; '
                'byte strings valid and invalid as UTF-8; multi-byte keys; integers up to 10^60; creation dates incl. 0, negative and the datetime range ends; '
-               'private 0/1): (a) read_stream(x).dump() == x and the infohash equals sha1 of the info span of x; (b) read_stream(t.dump()) == t for the '
+               'private 0/1; the key names "private" and "creation date" also at places where they are not special): (a) read_stream(x).dump() == x and the infohash equals sha1 of the info span of x; (b) read_stream(t.dump()) == t for the '
                'torrent t read in (a) (normal form), same infohash; model compared on (a); non-trivial = distinct documents')
     m = Model()
     pend = []
